@@ -143,9 +143,16 @@ def snapshot():
 
 
 def restore(s):
-    F._plugins.clear()
+    # in place: the list objects the module created stay the ones in use (re-binding fresh lists here would hide
+    # aliasing between scopes that exists in the module's own initial state)
+    for k in list(F._plugins):
+        if k not in s['plugins']:
+            del F._plugins[k]
     for k, v in s['plugins'].items():
-        F._plugins[k] = list(v)
+        if isinstance(F._plugins.get(k), list):
+            F._plugins[k][:] = v
+        else:
+            F._plugins[k] = list(v)
     F.flags_to_set[:] = s['flags_to_set']
     for m, n in DICT_REGS:
         d = reg(m, n)
